@@ -11,12 +11,12 @@ RULE = ("operation histories on two real secure_buffer<uint8_t, LockOnAlloc> obj
 
 def rbytes(rng, n): return bytes(rng.randrange(1, 0x80) for _ in range(n))
 
-def gen_hist(rng, nops):
+def gen_hist(rng, nops, kinds="NVSTCMKYRRRLPWW"):
     ops = []; size = {"A": 0, "B": 0}
     sizes = [0, 1, 2, 5, 15, 16, 17, 31, 32, 33, 64, 100, 257]
     for _ in range(nops):
         x = rng.choice("AB"); y = "B" if x == "A" else "A"
-        k = rng.choice("NVSTCMKYRRRLPWW")
+        k = rng.choice(kinds)
         n = rng.choice(sizes)
         if k == "N": ops.append("N:%s:%d" % (x, n)); size[x] = n
         elif k == "V":
@@ -38,7 +38,7 @@ def gen_hist(rng, nops):
 def gen(rng, tier):
     cases = []
     def add(lock, ops, cls):
-        line = "sbhist %d %s" % (lock, " ".join(ops))
+        line = "sbhist %s %s" % (lock, " ".join(ops))
         cases.append(Case(line, cls, True, spec="spec." + line))
     # directed: every op kind right after a fill, growth past capacity, shrink then release, assign shorter over longer then release
     for lock in (0, 1):
@@ -56,6 +56,16 @@ def gen(rng, tier):
         nops = rng.randrange(2, 13 if tier == "quick" else 41); ops = gen_hist(rng, nops)
         kinds = "".join(sorted(set(o[0] for o in ops)))
         add(i % 2, ops, "hist kinds=%s" % kinds)
+    # element types wider than a byte (secure_buffer<uint32_t>, <uint64_t>): byte counts are element counts times sizeof(T)
+    for var in ("w0", "w1", "x0", "x1"):
+        fill = "P:A:%s" % hexs(rbytes(rng, 24))
+        for tail, cls in [(["R:A:4096"], "grow"), (["R:A:25"], "grow+1"), (["R:A:3", "L:A"], "shrink-clear"), (["R:A:12"], "shrink-half"), (["P:B:%s" % hexs(rbytes(rng, 3)), "C:A", "L:A"], "copy-shorter-then-clear"),
+                          (["M:B", "L:B"], "move-then-clear"), (["K:B", "R:B:1000"], "copyctor-grow"), (["N:A:8"], "ctor-over"), (["V:A:%s" % hexs(rbytes(rng, 5))], "adopt-over"),
+                          (["R:A:10", "R:A:20", "R:A:30", "L:A"], "shrink-regrow")]:
+            add(var, [fill] + tail, "wide directed %s %s" % (cls, var))
+    for i in range(60 if tier == "quick" else 600):
+        ops = gen_hist(rng, rng.randrange(2, 11), "NVCMKYRRRLPWW")
+        add(("w%d", "x%d")[i % 2] % ((i // 2) % 2), ops, "wide hist kinds=%s" % "".join(sorted(set(o[0] for o in ops))))
     # finding F9 (known): adopting a caller vector whose slack [size, capacity) holds bytes the buffer has never seen
     for lock in (0, 1):
         add(lock, ["V:A:%s:%s" % (hexs(rbytes(rng, 4)), hexs(rbytes(rng, 28)))], "adopt-dirty-slack lock=%d" % lock)
